@@ -1,0 +1,31 @@
+//go:build verif
+
+package definition
+
+// Contracts checked by /verif (gvc). This file contains comments only and is compiled only with -tags verif.
+//
+// Typed abstract storage of the embedded contracts (property C10). The load/store helpers of this package move entries
+// between Go structs and the contract's key-value storage through the reflection-driven ABI encoder; they are NOT verified.
+// Their contracts below are ASSUMED ("trusted"): a Get after a Save returns what was saved, Delete removes, entries under
+// different keys are independent. They are stated over model fields of db.DB, one map per stored field.
+
+// ---- stake contract: entry (id, owner) -> amount, expiration time --------------------------------------------------------
+//@ model github.com/zenon-network/go-zenon/common/db:DB stakeHas map[arr]map[arr]bool
+//@ model github.com/zenon-network/go-zenon/common/db:DB stakeAmt map[arr]map[arr]int
+//@ model github.com/zenon-network/go-zenon/common/db:DB stakeExp map[arr]map[arr]int
+
+//@ func GetStakeInfo(context, id, address) -> (info, err)
+//@   trusted
+//@   ensures err == nil ==> info != nil && fresh(info) && context.stakeHas[id][address] && info.Id == id && info.StakeAddress == address && info.Amount != nil && val(info.Amount) == context.stakeAmt[id][address] && info.ExpirationTime == context.stakeExp[id][address]
+//@   ensures err != nil ==> info == nil
+//@   ensures err == constants.ErrDataNonExistent <==> !context.stakeHas[id][address]
+//@   modifies nothing
+
+//@ func StakeInfo.Save(stake, context) -> (err)
+//@   trusted
+//@   requires stake != nil && stake.Amount != nil
+//@   ensures err == nil ==> context.stakeHas == store(old(context.stakeHas), stake.Id, store(old(context.stakeHas[stake.Id]), stake.StakeAddress, true))
+//@   ensures err == nil ==> context.stakeAmt == store(old(context.stakeAmt), stake.Id, store(old(context.stakeAmt[stake.Id]), stake.StakeAddress, val(stake.Amount)))
+//@   ensures err == nil ==> context.stakeExp == store(old(context.stakeExp), stake.Id, store(old(context.stakeExp[stake.Id]), stake.StakeAddress, stake.ExpirationTime))
+//@   ensures err != nil ==> context.stakeHas == old(context.stakeHas) && context.stakeAmt == old(context.stakeAmt) && context.stakeExp == old(context.stakeExp)
+//@   modifies context.stakeHas, context.stakeAmt, context.stakeExp
